@@ -325,16 +325,25 @@ func (w *World) Dump() string {
 	}
 	tg := []string{}
 	peek.Each(peek.F(svc, "rc.TCPGroupCtl.groups"), func(key string, _, g reflect.Value) {
+		if peek.Walk(g, "lns").Len() == 0 {
+			return // an empty group record holds no resource and is not observable
+		}
 		tg = append(tg, fmt.Sprintf("%s:lns=%d:port=%d:real=%d", key, peek.Walk(g, "lns").Len(), peek.Walk(g, "port").Int(), peek.Walk(g, "realPort").Int()))
 	})
 	fmt.Fprintf(&b, "tcpGroups %v\n", tg)
 	hg := []string{}
 	peek.Each(peek.F(svc, "rc.HTTPGroupCtl.groups"), func(key string, _, g reflect.Value) {
+		if peek.Walk(g, "createFuncs").Len() == 0 {
+			return
+		}
 		hg = append(hg, fmt.Sprintf("%s:n=%d", key, peek.Walk(g, "createFuncs").Len()))
 	})
 	fmt.Fprintf(&b, "httpGroups %v\n", hg)
 	mg := []string{}
 	peek.Each(peek.F(svc, "rc.TCPMuxGroupCtl.groups"), func(key string, _, g reflect.Value) {
+		if peek.Walk(g, "lns").Len() == 0 {
+			return
+		}
 		mg = append(mg, fmt.Sprintf("%s:lns=%d", key, peek.Walk(g, "lns").Len()))
 	})
 	fmt.Fprintf(&b, "tcpmuxGroups %v\n", mg)
